@@ -32,8 +32,8 @@ P = {
          "independently generated reference encoder and to return box_size(); read_box to consume exactly the box and return a value satisfying the layout predicate. Size level for every other box of the muxer's tree and emsg "
          "(box_size() == ISO length, write_box advances by exactly that, read_box consumes exactly the declared size for both header forms, trailing bytes skipped), also for elst, edts, trun, traf, moof, mvex under their wire predicates; data box byte-exact both ways. "
          "Every box type is proved to report its own BoxType. Decoders of stbl, minf, mdia, trak, moov, stsd, avc1, avcC (incl. NAL units), mp4a (esds selection), the AudioSpecificConfig and the descriptor length coding, data / ilst / meta / udta: functional, against forward folds over the sibling chain. "
-         "The spec-level round trip X_at(wr(d, p, X_bytes(b)), p, b) is proved for the 10 fixed-layout boxes and 6 table boxes (generated lemmas), with decode-is-a-function lemmas for the tables."),
-   note=TRUST + " Domain: box_size <= u32::MAX (D-20). Round trip not mechanised for stsz, ftyp and the size-level boxes. "
+         "The spec-level round trip X_at(wr(d, p, X_bytes(b)), p, b) is proved for the 10 fixed-layout boxes, the 7 table boxes and ftyp (generated / hand-written lemmas), with decode-is-a-function lemmas for the tables."),
+   note=TRUST + " Domain: box_size <= u32::MAX (D-20). Round trip not mechanised for the size-level boxes. "
         "Not under functional contract: hdlr name / url location strings, hvcC/vpcC/tx3g field values and the esds descriptor nesting (sizes only), trun/elst/emsg decoders (consumption only), encoders of ilst / meta / udta (HashMap iteration)."),
  'C05': dict(claim=True, cat='proof', technique='same obligations as C04; the specs are generated from the ISO syntax tables with clause numbers (tool/gen_layouts.py, tool/gen_tables.py) or written from them; Kani full-domain harnesses for bit-level helpers',
    text="Conformance of the boxes listed under C04 (byte level), of the descriptor length coding (size_of_length, Kani all u32), the AAC object-type escape coding (Verus + Kani all 2^16), the box-type registry (Kani: independent table) and BoxHeader::read (Kani, all 16-byte inputs: complete) to layouts written from ISO/IEC 14496-12/-14/-1, proved separately for encoder and decoder so that a symmetric mistake fails on both.",
